@@ -132,7 +132,8 @@ func realRevocationStage(c *common.Ctx, w *world, n int) {
 		option := []string{"always", "unset", "afterCertExpiry"}[(k/len(crlVariants))%3]
 		p := plan{scheme: "x509", stores: []string{"c06tsa"}, option: option, signSec: -3 * day, token: variant,
 			genSec: -2 * day, accS: 1, rev: expected[variant], focus: "realRevocationValidator", tokenKind: variant, rangeKind: "inside",
-			nb: []int64{-10 * day, -10 * day}, na: []int64{10 * day, 10 * day}}
+			level: []string{"logBoth", "logBoth+revocationSkip"}[k%2], // the signing-chain override must not switch the TSA check off
+			nb:    []int64{-10 * day, -10 * day}, na: []int64{10 * day, 10 * day}}
 		if option == "afterCertExpiry" {
 			p.na[k%2] = -day // an expired certificate, so that timestamp verification applies
 		}
